@@ -54,6 +54,15 @@ func (h *QuorumHandler) SyncGenesisHeader(ns *native.NativeService) error {
 	if err = json.Unmarshal(params.GenesisHeader, header); err != nil {
 		return fmt.Errorf("QuorumHandler SyncGenesisHeader, deserialize header err: %v", err)
 	}
+	//genesis header can only be synced once
+	valStore, err := ns.GetCacheDB().Get(utils.ConcatKey(utils.HeaderSyncContractAddress,
+		[]byte(common.CONSENSUS_PEER), utils.GetUint64Bytes(params.ChainID)))
+	if err != nil {
+		return fmt.Errorf("QuorumHandler SyncGenesisHeader, get validator set error: %v", err)
+	}
+	if valStore != nil {
+		return fmt.Errorf("QuorumHandler SyncGenesisHeader, genesis header had been initialized")
+	}
 	extra, err := ExtractIstanbulExtra(header)
 	if err != nil {
 		return fmt.Errorf("QuorumHandler SyncGenesisHeader, failed to ExtractIstanbulExtra: %v", err)
